@@ -4,6 +4,7 @@
   ties to `lumicks/pylake/population/detail/hmm.py` and `population/dwelltime.py` on every run.
 -/
 import Verif.Lemmas.C16
+import Verif.Lemmas.C16EM
 
 namespace Verif.C16
 open Verif.Py
@@ -293,13 +294,144 @@ theorem hypotheses_needed :
       occupancy r.gammas 1 = 0 ∧ sumK 2 (atR ((updA 2 r.gammas r.xis).getD 1 [])) ≠ 1) := by
   refine ⟨⟨_, rfl, ?_, ?_⟩, ⟨_, rfl, ?_, ?_⟩, ⟨_, rfl, ?_, ?_, ?_⟩⟩ <;> decide +kernel
 
-/-
-  ext `em_monotone` (NOT proved; stated for the record, explored only by the harness):
-  for the model `m' = update m (γ, ξ)` obtained from the E-step of `m` on data `y` with all `c_t ≠ 0`,
-  `likelihood m' y ≥ likelihood m y` (Jensen's inequality for the auxiliary function `Q(m, m')`
-  plus the fact that `π' = γ_0`, `A' = Σξ/Σγ`, `μ' = Σγx/Σγ`, `σ'² = Σγ(x-μ')²/Σγ` maximise `Q`).
-  It needs `Real.log`/`Real.exp` for the Gaussian emissions, which the rational model does not have.
--/
+/-! ## Baum–Welch does not decrease the likelihood (deepening round D) -/
+
+/-- **`em_monotone`.**  Likelihood, posteriors and re-estimation over ℝ, every sum over ALL `K^T`
+    state paths (`EM.LR`, `EM.G = L·γ`, `EM.X = L·ξ`, defined position by position in
+    `Lemmas/C16EM`): for a Gaussian-emission model with probability weights `π`, `A` (zero entries
+    allowed; totals at most one — exact normalisation is what `update_normalised` gives), variances
+    `v > 0`, on any observations `x` and any trace length `T ≥ 1`, the model re-estimated by the
+    formulas of `ClassicHmm.update` from the exact posteriors — `π' = γ_0`, `A' = Σ_t ξ_t / Σ_{t<T-1} γ_t`,
+    `μ' = Σγx/Σγ`, `σ'² = Σγ(x-μ')²/Σγ` — has a likelihood that is **not smaller**.  Hypothesis: no
+    re-estimated variance of an occupied state is zero (variance collapse: the code returns an
+    infinite precision there and the likelihood is unbounded). -/
+theorem em_monotone (K T : ℕ) (π : ℕ → ℝ) (A : ℕ → ℕ → ℝ) (x μ v : ℕ → ℝ) (hT : 0 < T)
+    (hπ : ∀ i, i < K → 0 ≤ π i) (hA : ∀ i j, i < K → j < K → 0 ≤ A i j)
+    (hπ1 : ∑ i ∈ Finset.range K, π i ≤ 1) (hA1 : ∀ i, i < K → ∑ j ∈ Finset.range K, A i j ≤ 1)
+    (hv : ∀ j, j < K → 0 < v j)
+    (hv' : ∀ j, j < K → 0 < EM.wsum K T π A x μ v j → 0 < EM.newVar K T π A x μ v j) :
+    EM.LR K T π A (EM.gaussTab x μ v)
+      ≤ EM.LR K T (EM.newPi K T π A (EM.gaussTab x μ v)) (EM.newA K T π A (EM.gaussTab x μ v))
+          (EM.gaussTab x (EM.newMu K T π A x μ v) (EM.newVar K T π A x μ v)) :=
+  EM.em_monotone_gaussian hT hπ hA hπ1 hA1 hv hv'
+
+/-- `em_monotone` **without the side condition**: for strictly positive `π`, `A` (totals at most
+    one) and observations that are not all equal, every re-estimated variance is positive — the
+    code establishes the hypothesis — and the likelihood does not decrease. -/
+theorem em_monotone_of_pos (K T : ℕ) (π : ℕ → ℝ) (A : ℕ → ℕ → ℝ) (x μ v : ℕ → ℝ) (hT : 0 < T)
+    (hπ : ∀ i, i < K → 0 < π i) (hA : ∀ i j, i < K → j < K → 0 < A i j)
+    (hπ1 : ∑ i ∈ Finset.range K, π i ≤ 1) (hA1 : ∀ i, i < K → ∑ j ∈ Finset.range K, A i j ≤ 1)
+    (hv : ∀ j, j < K → 0 < v j) (t1 t2 : ℕ) (h1 : t1 < T) (h2 : t2 < T) (hx : x t1 ≠ x t2) :
+    EM.LR K T π A (EM.gaussTab x μ v)
+      ≤ EM.LR K T (EM.newPi K T π A (EM.gaussTab x μ v)) (EM.newA K T π A (EM.gaussTab x μ v))
+          (EM.gaussTab x (EM.newMu K T π A x μ v) (EM.newVar K T π A x μ v)) :=
+  EM.em_monotone_of_pos hT hπ hA hπ1 hA1 hv h1 h2 hx
+
+/-- Non-vacuity of `em_monotone` / `em_monotone_of_pos`: two states, three observations `0, 1, 2`,
+    `π = (1/2, 1/2)`, `A = ((3/4, 1/4), (1/4, 3/4))`, means `(0, 2)`, unit variances — every
+    hypothesis holds (the side condition of `em_monotone` by `em_monotone_of_pos`). -/
+example :
+    let π : ℕ → ℝ := fun _ => 1 / 2
+    let A : ℕ → ℕ → ℝ := fun i j => if i = j then 3 / 4 else 1 / 4
+    let x : ℕ → ℝ := fun t => t
+    let μ : ℕ → ℝ := fun j => 2 * j
+    let v : ℕ → ℝ := fun _ => 1
+    (∀ i, i < 2 → 0 < π i) ∧ (∀ i j, i < 2 → j < 2 → 0 < A i j) ∧
+    ∑ i ∈ Finset.range 2, π i ≤ 1 ∧ (∀ i, i < 2 → ∑ j ∈ Finset.range 2, A i j ≤ 1) ∧
+    (∀ j, j < 2 → 0 < v j) ∧ x 0 ≠ x 1 ∧
+    EM.LR 2 3 π A (EM.gaussTab x μ v)
+      ≤ EM.LR 2 3 (EM.newPi 2 3 π A (EM.gaussTab x μ v)) (EM.newA 2 3 π A (EM.gaussTab x μ v))
+          (EM.gaussTab x (EM.newMu 2 3 π A x μ v) (EM.newVar 2 3 π A x μ v)) := by
+  intro π A x μ v
+  have h1 : ∀ i, i < 2 → 0 < π i := fun _ _ => by norm_num [π]
+  have h2 : ∀ i j, i < 2 → j < 2 → 0 < A i j := fun i j _ _ => by
+    by_cases h : i = j <;> simp [A, h]
+  have h3 : ∑ i ∈ Finset.range 2, π i ≤ 1 := by norm_num [π, Finset.sum_range_succ]
+  have h4 : ∀ i, i < 2 → ∑ j ∈ Finset.range 2, A i j ≤ 1 := by
+    intro i hi
+    have : i = 0 ∨ i = 1 := by omega
+    rcases this with rfl | rfl <;> norm_num [A, Finset.sum_range_succ]
+  have h5 : ∀ j, j < 2 → 0 < v j := fun _ _ => by norm_num [v]
+  have h6 : x 0 ≠ x 1 := by norm_num [x]
+  exact ⟨h1, h2, h3, h4, h5, h6,
+    em_monotone_of_pos 2 3 π A x μ v (by norm_num) h1 h2 h3 h4 h5 0 1 (by norm_num) (by norm_num) h6⟩
+
+/-- The same for ANY positive emission tables `b`, `b'` (not only Gaussian ones) for which the
+    expected emission log-density does not go down: the structural part of the ascent. -/
+theorem em_monotone_general (K T : ℕ) (π : ℕ → ℝ) (A : ℕ → ℕ → ℝ) (b b' : ℕ → ℕ → ℝ) (hT : 0 < T)
+    (w : EM.Weights K T π A b)
+    (hπ1 : ∑ i ∈ Finset.range K, π i ≤ 1) (hA1 : ∀ i, i < K → ∑ j ∈ Finset.range K, A i j ≤ 1)
+    (hb' : ∀ t j, t < T → j < K → 0 < b' t j)
+    (hemit : 0 ≤ ∑ t ∈ Finset.range T, ∑ j ∈ Finset.range K,
+      EM.G K T π A b t j * Real.log (b' t j / b t j)) :
+    EM.LR K T π A b ≤ EM.LR K T (EM.newPi K T π A b) (EM.newA K T π A b) b' :=
+  EM.em_general hT w hπ1 hA1 b' hb' hemit
+
+/-- **The tie of `em_monotone` to the executable model.**  For the rational model (the one the
+    harness runs against `forward_backward` / `calculate_temporary_variables` / `ClassicHmm.update`)
+    on a model with probability weights and positive emission densities: the real-valued
+    likelihood and posteriors of `em_monotone` are the casts of what the scaled recursions compute
+    (`L = ∏ c_t`, `γ`, `ξ`). -/
+theorem em_link (K : Nat) (pi : Nat → Rat) (A : Nat → Nat → Rat) (B : List Vec) (r : FB)
+    (h : forwardBackward K pi A B = some r) (hp : posModel K pi A B = true) :
+    EM.LR K B.length (EM.cpi pi) (EM.cA A) (EM.tabR B) = ((r.likelihood : ℚ) : ℝ) ∧
+    (∀ t i, t < B.length → i < K →
+      EM.G K B.length (EM.cpi pi) (EM.cA A) (EM.tabR B) t i
+        = ((atR (r.gammas.getD t []) i : ℚ) : ℝ) * ((r.likelihood : ℚ) : ℝ)) ∧
+    (∀ t i j, t + 1 < B.length → i < K → j < K →
+      EM.X K B.length (EM.cpi pi) (EM.cA A) (EM.tabR B) t i j
+        = ((atR ((r.xis.getD t []).getD i []) j : ℚ) : ℝ) * ((r.likelihood : ℚ) : ℝ)) := by
+  have hB : B ≠ [] := by rintro rfl; simp [forwardBackward] at h
+  obtain ⟨e1, _, _, e4, e5⟩ := inference_exact_of_posModel K pi A B r h hp
+  refine ⟨by rw [e1, EM.cast_likelihoodSpec hB], fun t i ht hi => ?_, fun t i j ht hi hj => ?_⟩
+  · rw [← EM.cast_pinnedSpec hB ht, ← e4 t i ht hi]; push_cast; ring
+  · rw [← EM.cast_pinned2Spec hB ht, ← e5 t i j ht hi hj]; push_cast; ring
+
+/-- **Ascent for the executable model, emission table kept**: for every model with probability
+    weights (totals at most one) and positive emission densities — any table `B`, Gaussian or not —
+    replacing `π`, `A` by what `ClassicHmm.update` computes from the forward–backward run
+    (`updPi`, `updA`) does not decrease the exact likelihood `Σ_paths P(path, y)`. -/
+theorem em_monotone_tables (K : Nat) (pi : Nat → Rat) (A : Nat → Nat → Rat) (B : List Vec) (r : FB)
+    (h : forwardBackward K pi A B = some r) (hp : posModel K pi A B = true)
+    (hπ1 : sumK K pi ≤ 1) (hA1 : ∀ i, i < K → sumK K (A i) ≤ 1) :
+    likelihoodSpec K pi A B
+      ≤ likelihoodSpec K (atR (updPi r.gammas)) (fnOfRows (updA K r.gammas r.xis)) B := by
+  have hB : B ≠ [] := by rintro rfl; simp [forwardBackward] at h
+  obtain ⟨e1, e2, _, e4, e5⟩ := inference_exact_of_posModel K pi A B r h hp
+  have hgl := (gamma_normalised K pi A B r h
+    (fun s hs => ne_of_gt (scaling_positive K pi A B r h hp s hs))).1
+  have hxl : r.xis.length = B.length - 1 := by
+    have := congrArg List.length (xi_marginal K pi A B r h)
+    simpa [hgl] using this
+  exact EM.em_tables_of_exact K pi A B r.gammas r.xis r.likelihood hB hp hπ1 hA1 e1 e2 hxl hgl
+    (fun t i ht hi => e4 t i ht hi) (fun t i j ht hi hj => e5 t i j ht hi hj)
+
+/-- The same about the function the driver runs (`c16.emtab`). -/
+theorem emTables_mono (K : Nat) (pi : Nat → Rat) (A : Nat → Nat → Rat) (B : List Vec) (l0 l1 : Rat)
+    (h : emTables K pi A B = some (l0, l1)) (hp : posModel K pi A B = true)
+    (hs : subStochastic K pi A = true) : l0 ≤ l1 := by
+  unfold emTables at h
+  cases hr : forwardBackward K pi A B with
+  | none => rw [hr] at h; simp at h
+  | some r =>
+    rw [hr] at h
+    simp only [Option.map_some, Option.some.injEq, Prod.mk.injEq] at h
+    simp only [subStochastic, Bool.and_eq_true, List.all_eq_true, List.mem_range, decide_eq_true_eq] at hs
+    rw [← h.1, ← h.2]
+    exact em_monotone_tables K pi A B r hr hp hs.1 hs.2
+
+/-- Non-vacuity of `em_monotone_tables` (the model of the examples above, with a zero in `π` and
+    in `A`): the exact likelihood strictly increases. -/
+example :
+    posModel 2 (atR [1, 0]) (fnOfRows [[9/10, 1/10], [0, 1]]) [[1/2, 1/3], [1/5, 1/7], [1/3, 1/2]] = true ∧
+    sumK 2 (atR [1, 0]) ≤ 1 ∧ (∀ i, i < 2 → sumK 2 (fnOfRows [[9/10, 1/10], [0, 1]] i) ≤ 1) ∧
+    ∃ r, forwardBackward 2 (atR [1, 0]) (fnOfRows [[9/10, 1/10], [0, 1]])
+        [[1/2, 1/3], [1/5, 1/7], [1/3, 1/2]] = some r ∧
+      likelihoodSpec 2 (atR [1, 0]) (fnOfRows [[9/10, 1/10], [0, 1]]) [[1/2, 1/3], [1/5, 1/7], [1/3, 1/2]]
+        < likelihoodSpec 2 (atR (updPi r.gammas)) (fnOfRows (updA 2 r.gammas r.xis))
+            [[1/2, 1/3], [1/5, 1/7], [1/3, 1/2]] := by
+  refine ⟨by decide +kernel, by decide +kernel, by decide +kernel, _, rfl, by decide +kernel⟩
+
 
 /-- Non-vacuity: a two-state model on three observations; every `c_t ≠ 0`, and the likelihood is the
     36000-th part of 1031 on both sides. -/
